@@ -701,4 +701,76 @@ def starttagHref (v : List Char) : List Char :=
 def validIdentifierCss (s : List Char) : List Char :=
   s.filter fun c => isLetter c || isDigit c || c = '_'
 
+
+/-! ### 7d. the math filter (`node2stan.HTMLTranslator._is_math_html` / `visit_math`, commit 9d87f54) -/
+
+/-- `_MATH_TAGS` -/
+def mathTags : List (List Char) :=
+  [['s', 'p', 'a', 'n'], ['d', 'i', 'v'], ['i'], ['b'], ['s', 'u', 'b'], ['s', 'u', 'p'], ['h', 'r'], ['a'], ['b', 'r'],
+   ['t', 't'], ['u'], ['b', 'i', 'g'], ['s', 'm', 'a', 'l', 'l'], ['t', 'a', 'b', 'l', 'e'], ['t', 'b', 'o', 'd', 'y'],
+   ['t', 'r'], ['t', 'd']]
+
+/-- `_MATH_ATTRS` -/
+def mathAttrs : List (List Char) :=
+  [['c', 'l', 'a', 's', 's'], ['s', 't', 'y', 'l', 'e'], ['h', 'r', 'e', 'f'], ['n', 'a', 'm', 'e']]
+
+/-- `str.lower` on ASCII (no other character lower-cases to a letter of the three scheme names) -/
+def asciiLower (c : Char) : Char :=
+  if 65 ≤ c.toNat ∧ c.toNat ≤ 90 then Char.ofNat (c.toNat + 32) else c
+
+/-- `str.strip()` -/
+def pyStrip (s : List Char) : List Char := rstrip isPySpace (s.dropWhile isPySpace)
+
+/-- `href.strip().lower().startswith(('javascript:', 'data:', 'vbscript:'))` -/
+def scriptHref (v : List Char) : Bool :=
+  let h := (pyStrip v).map asciiLower
+  ['j', 'a', 'v', 'a', 's', 'c', 'r', 'i', 'p', 't', ':'].isPrefixOf h || ['d', 'a', 't', 'a', ':'].isPrefixOf h ||
+    ['v', 'b', 's', 'c', 'r', 'i', 'p', 't', ':'].isPrefixOf h
+
+/-- `dict.get('href', '')` -/
+def hrefOf : List (List Char × List Char) → List Char
+  | [] => []
+  | (k, v) :: r => if k = ['h', 'r', 'e', 'f'] then v else hrefOf r
+
+mutual
+/-- the walk of `_is_math_html` over the parsed fragment: every element is one of math2html's own,
+carries only math2html's attributes, and no `href` is a script URL (a transparent tag is the
+fragment's root / dissolves when flattened: only its children count) -/
+def isMathHtml : Stan → Bool
+  | .tag name attrs children =>
+    if name.isEmpty then isMathHtmlList children
+    else mathTags.contains name && attrs.all (fun kv => mathAttrs.contains kv.1) &&
+      !scriptHref (hrefOf attrs) && isMathHtmlList children
+  | _ => true
+def isMathHtmlList : List Stan → Bool
+  | [] => true
+  | t :: ts => isMathHtml t && isMathHtmlList ts
+end
+
+/-- `visit_math`: `html` is what docutils' math2html wrote (a parameter), `parsed` its `html2stan`
+parse (`none` = it raised); the formula's HTML is kept only when the walk accepts it, otherwise the
+LaTeX source is written, `encode`d, in `<tt class="…math">` / `<pre class="…math">` -/
+def visitMath (html : List Char) (parsed : Option Stan) (src : List Char) (isBlock : Bool) : List Char :=
+  let ok := match parsed with
+    | some t => isMathHtml t
+    | none => false
+  if ok then html
+  else
+    let tag := if isBlock then ['p', 'r', 'e'] else ['t', 't']
+    starttagClass tag ['m', 'a', 't', 'h'] ++ encode src ++ ['<', '/'] ++ tag ++ ['>']
+
+/-! ### 7e. the signature of an introspected function (`model._escaped_signature`, commit cac0f25) -/
+
+/-- `flatten(format_signature(f))` for an introspected `f(a=<value>)`: `reprText` is `repr(value)`
+(CPython, a parameter); `_EscapedRepr.__repr__` is `html.escape(repr, quote=False)` — `&`, `<`, `>`
+in this order, the same function as `escapeForContent` — and `str(signature)` puts it after `(a=` -/
+def formatSigIntrospected (reprText : List Char) : List Char :=
+  match html2stanText (escapeForContent reprText) with
+  | some t => ['(', 'a', '='] ++ escapeForContent t ++ [')']
+  | none => sigBroken
+
+/-- before cac0f25 the repr was handed to the XML parser as it was -/
+def formatSigIntrospectedOld (reprText : List Char) : Option (List Char) :=
+  html2stanText reprText
+
 end Escape
